@@ -36,6 +36,7 @@ type c04Tok struct {
 }
 
 type c04Model struct {
+	nextData map[string]any
 	v      *vCore
 	toks   []*c04Tok
 	steps  []string
@@ -105,6 +106,10 @@ func (m *c04Model) create(parent *c04Tok, parentID string, orphan bool, nsPath s
 		data["id"] = m.nextID // caller-chosen id (root / sudo callers only)
 		m.nextID = ""
 	}
+	for k, val := range m.nextData { // one-shot overrides (policies, num_uses, ttl ...)
+		data[k] = val
+	}
+	m.nextData = nil
 	resp, err := v.Do(vReq{Tag: tag, Op: logical.UpdateOperation, Path: "auth/token/create", Token: parentID, Data: data, NS: nsPath})
 	if !vOK(resp, err) || resp == nil || resp.Auth == nil {
 		return nil, fmt.Errorf("%s", vErrStr(resp, err))
